@@ -171,6 +171,12 @@ func runAgent(in []int64) ([]int64, []int64) {
 	removedWhileHolding := map[int64]bool{}
 	forgotten := map[[2]int64]bool{} // (pod, node) pairs the cache dropped with a removed node
 	forgot := false
+	quiet := true // no cache events in the history: only calls and bind executions
+	for _, it := range b.Items {
+		if it.Kind != itBind && it.Kind != itFlow && it.Kind != itBatch {
+			quiet = false
+		}
+	}
 	var queued []int       // accepted calls whose bind has not been executed yet
 	var batchObs [][]int64 // law 117
 	step := func(i int) error {
@@ -181,6 +187,9 @@ func runAgent(in []int64) ([]int64, []int64) {
 			if err == nil {
 				evMu.Lock()
 				queued = append(queued, i)
+				// the pair is learned again: from now on it counts in law 116 like any other placement
+				// (the finding only explains pods dropped with the removed node and not re-admitted since)
+				delete(forgotten, [2]int64{it.Bind[1], it.Bind[2]})
 				evMu.Unlock()
 			}
 			return err
@@ -229,6 +238,11 @@ func runAgent(in []int64) ([]int64, []int64) {
 			before := make([]bool, len(batch))
 			for k, j := range batch {
 				before[k] = onLedger(j)
+				// an accepted context is on its node's ledger until its bind is executed unless an event
+				// in between took it off; without such events a miss means the observation is mis-keyed
+				if !before[k] && quiet {
+					panic(fmt.Sprintf("accepted call %d (task %d -> node %d) is not on the node's ledger before the batch", j, b.Items[j].Bind[1], b.Items[j].Bind[2]))
+				}
 			}
 			if got := sc.VerifProcessBindFlowBatch(); got != len(batch) {
 				panic(fmt.Sprintf("batch hook processed %d contexts, %d were accepted since the last execution", got, len(batch)))
@@ -598,6 +612,33 @@ func genAgentCase(r *vh.Rng) (bindCase, bool) {
 		ev := weaveEvents(er, &b, free, tid, true)
 		nt = b.Workers >= 2 && ev
 	}
+	if b.Exact && !withEvents {
+		// bind execution inside random histories (third audit E3): the accepted calls so far are
+		// executed -- one context at a time or as one batch -- with random PreBind / Binding faults,
+		// somewhere in the middle and at the end
+		xr := r.Fork()
+		fault := func() item {
+			it := item{Kind: vh.Pick(xr, []int64{itFlow, itBatch, itBatch})}
+			for _, t := range pending {
+				switch {
+				case xr.Chance(1, 6):
+					it.Fails = append(it.Fails, t.ID)
+				case it.Kind == itBatch && xr.Chance(1, 4):
+					it.BindFails = append(it.BindFails, t.ID)
+				}
+			}
+			return it
+		}
+		if xr.Chance(2, 3) {
+			at := xr.Range(1, len(b.Items))
+			items := append([]item{}, b.Items[:at]...)
+			items = append(items, fault())
+			b.Items = append(items, b.Items[at:]...)
+			if xr.Chance(1, 2) {
+				b.Items = append(b.Items, fault())
+			}
+		}
+	}
 	return b, nt
 }
 
@@ -667,7 +708,7 @@ func genAgent(rng *vh.Rng, n int, emit func(id string, sel int, in []int64, kind
 	fr := rng.Fork()
 	for i := 0; i < max(4, n/50); i++ {
 		b := prebindCase(fr.Fork())
-		emit(fmt.Sprintf("agent-prebind-%d", i), 3, b.enc(), "bind/agent/prebind", true,
+		emit(fmt.Sprintf("agent-prebind-%d", i), 3, b.enc(), "bind/agent/prebind", b.batchFaultActs(),
 			map[string]any{"directed": "admitted pod whose PreBind fails, then a pod that fits only what it released", "items": len(b.Items)})
 	}
 	rr := rng.Fork()
@@ -687,13 +728,63 @@ func genAgent(rng *vh.Rng, n int, emit func(id string, sel int, in []int64, kind
 		r := rng.Fork()
 		b, nt := genAgentCase(r)
 		kind := fmt.Sprintf("bind/agent/exact=%v/events=%v", b.Exact, b.hasEvents())
+		if b.executes() {
+			kind = fmt.Sprintf("bind/agent/exact=%v/exec=true", b.Exact)
+		}
 		desc := map[string]any{"nodes": len(b.Nodes), "tasks": len(b.Tasks), "workers": b.Workers, "items": len(b.Items)}
 		emit(fmt.Sprintf("agent-%d", i), 3, b.enc(), kind, nt, desc)
 	}
 	br := rng.Fork()
 	for i := 0; i < max(4, n/50); i++ {
 		b := batchCase(br.Fork())
-		emit(fmt.Sprintf("agent-batch-%d", i), 3, b.enc(), "bind/agent/batch", true,
+		emit(fmt.Sprintf("agent-batch-%d", i), 3, b.enc(), "bind/agent/batch", b.batchFaultActs(),
 			map[string]any{"directed": "batch of admitted pods, one Binding fails, then a pod that fits only if a bound pod is forgotten", "items": len(b.Items)})
 	}
+}
+
+// executes: the history runs the bind flow somewhere
+func (b bindCase) executes() bool {
+	for _, it := range b.Items {
+		if it.Kind == itFlow || it.Kind == itBatch {
+			return true
+		}
+	}
+	return false
+}
+
+// batchFaultActs (non-triviality of the bind-execution families, computed from the case): some
+// execution item names a fault for a task that has a call before it, at least one OTHER call precedes
+// the same item or the fault is a PreBind one, and a call to the same node follows the item -- i.e. the
+// per-context failure handling has something to get wrong and the admission afterwards can show it.
+func (b bindCase) batchFaultActs() bool {
+	for i, it := range b.Items {
+		if it.Kind != itFlow && it.Kind != itBatch {
+			continue
+		}
+		faulty := map[int64]bool{}
+		for _, t := range it.Fails {
+			faulty[t] = true
+		}
+		for _, t := range it.BindFails {
+			faulty[t] = true
+		}
+		node, calls := int64(0), 0
+		for _, e := range b.Items[:i] {
+			if e.Kind == itBind {
+				calls++
+				if faulty[e.Bind[1]] {
+					node = e.Bind[2]
+				}
+			}
+		}
+		if node == 0 || (calls < 2 && len(it.Fails) == 0) {
+			continue
+		}
+		for _, e := range b.Items[i+1:] {
+			if e.Kind == itBind && e.Bind[2] == node {
+				return true
+			}
+		}
+	}
+	return false
 }
